@@ -14,6 +14,14 @@ Add Ring Kring : Kth.
 Local Open Scope K_scope.
 Notation net := (list (score K)).
 
+Lemma sumidx_ext_range ds : forall (f g : list nat -> K), (forall idx, in_range ds idx = true -> f idx = g idx) ->
+  sumidx ds f = sumidx ds g.
+Proof.
+  induction ds as [|d ds IH]; intros f g H; cbn [sumidx]; [apply H; reflexivity|].
+  apply sumn_ext. intros i Hi. apply IH. intros idx Hr. apply H. cbn [in_range].
+  apply Nat.ltb_lt in Hi. rewrite Hi, Hr. reflexivity.
+Qed.
+
 Definition gram2 (X Y : net) (p p' : nat) : K :=
   sumidx (sshape X) (fun idx => evalv X idx ones p * evalv Y idx ones p').
 
@@ -108,33 +116,42 @@ Proof.
 Qed.
 
 (* zero Gram blocks propagate to the left through arbitrary (shape-compatible) prefixes *)
-Fixpoint same_dims (X Y : net) : Prop :=
-  match X, Y with [], [] => True | a :: X', b :: Y' => dm a = dm b /\ same_dims X' Y' | _, _ => False end.
-Lemma gram2_zero_prefix (X : net) : forall (Y : net) (RX RY : net), same_dims X Y ->
-  (forall q q', gram2 RX RY q q' = 0) -> forall p p', gram2 (X ++ RX) (Y ++ RY) p p' = 0.
+Definition same_dims (X Y : net) : Prop := sshape X = sshape Y.
+Fixpoint wfpre (r0 : nat) (X : net) (rend : nat) : Prop :=
+  match X with [] => r0 = rend | a :: X' => rl a = r0 /\ wfpre (rr a) X' rend end.
+Lemma gram2_zero_prefix (X : net) : forall (Y RX RY : net) pX pY rX rY, same_dims X Y ->
+  wfpre pX X rX -> wfpre pY Y rY ->
+  (forall q q', (q < rX)%nat -> (q' < rY)%nat -> gram2 RX RY q q' = 0) ->
+  forall p p', (p < pX)%nat -> (p' < pY)%nat -> gram2 (X ++ RX) (Y ++ RY) p p' = 0.
 Proof.
-  induction X as [|a X IH]; intros [|b Y] RX RY Hd Hz p p'; cbn in Hd; try contradiction; [apply Hz|].
-  destruct Hd as [Hd1 Hd]. cbn [app]. rewrite gram2_cons by exact Hd1.
-  apply (sumn_zero_ext Kth). intros i _. apply (sumn_zero_ext Kth). intros q _. apply (sumn_zero_ext Kth). intros q' _.
-  rewrite (IH Y RX RY Hd Hz q q'). ring.
+  induction X as [|a X IH]; intros [|b Y] RX RY pX pY rX rY Hd HX HY Hz p p' Hp Hp'; unfold same_dims in Hd; cbn in Hd; try discriminate.
+  - cbn in HX, HY. subst. apply Hz; assumption.
+  - injection Hd as Hd1 Hd. destruct HX as [_ HX]. destruct HY as [_ HY]. cbn [app]. rewrite gram2_cons by exact Hd1.
+    apply (sumn_zero_ext Kth). intros i _. apply (sumn_zero_ext Kth). intros q Hq. apply (sumn_zero_ext Kth). intros q' Hq'.
+    rewrite (IH Y RX RY (rr a) (rr b) rX rY Hd HX HY Hz q q' Hq Hq'). ring.
 Qed.
+Lemma wfpre_hd1 (X : net) (c : score K) rest : wfpre 1 X (rl c) -> hd1 (X ++ c :: rest) = 1%nat.
+Proof. destruct X as [|a X]; cbn; [auto | intros [H _]; exact H]. Qed.
 
 (* E R^T = 0 in front of a shared right-orthonormal suffix makes the two tensors orthogonal *)
 Theorem orthogonal_steps (X Y : net) (e r : score K) (suf : net) :
-  same_dims X Y -> dm e = dm r -> rr e = rr r -> rchain K (rr e) suf ->
-  (forall p p', sumn (dm e) (fun i => sumn (rr e) (fun q => sl e i p q * sl r i p' q)) = 0) ->
-  hd1 (X ++ e :: suf) = 1%nat -> hd1 (Y ++ r :: suf) = 1%nat ->
+  same_dims X Y -> wfpre 1 X (rl e) -> wfpre 1 Y (rl r) ->
+  dm e = dm r -> rr e = rr r -> rchain K (rr e) suf ->
+  (forall p p', (p < rl e)%nat -> (p' < rl r)%nat ->
+     sumn (dm e) (fun i => sumn (rr e) (fun q => sl e i p q * sl r i p' q)) = 0) ->
   sumidx (sshape (X ++ e :: suf)) (fun idx => eval (X ++ e :: suf) idx * eval (Y ++ r :: suf) idx) = 0.
 Proof.
-  intros Hd Hdm Hrr Hc Hz H1 H2.
-  assert (G: forall p p', gram2 (X ++ e :: suf) (Y ++ r :: suf) p p' = 0).
-  { apply gram2_zero_prefix; [exact Hd|]. intros p p'. rewrite gram2_cons by exact Hdm.
-    rewrite <- (Hz p p'). apply sumn_ext. intros i _. apply sumn_ext. intros q Hq.
+  intros Hd HX HY Hdm Hrr Hc Hz.
+  assert (G: gram2 (X ++ e :: suf) (Y ++ r :: suf) O O = 0).
+  { apply (gram2_zero_prefix X Y (e :: suf) (r :: suf) 1 1 (rl e) (rl r)); auto.
+    intros p p' Hp Hp'. rewrite gram2_cons by exact Hdm.
+    rewrite <- (Hz p p' Hp Hp'). apply sumn_ext. intros i _. apply sumn_ext. intros q Hq.
     rewrite <- Hrr.
     rewrite (sumn_ext (rr e) _ (fun q' => delta q q' * (sl e i p q * sl r i p' q'))).
     2:{ intros q' Hq'. rewrite (gram_right suf (rr e) q q' Hc Hq Hq'). ring. }
     apply (sumn_delta Kth). exact Hq. }
-  rewrite <- (G O O). unfold gram2. apply sumidx_ext. intros idx. unfold eval.
+  rewrite <- G. unfold gram2. apply sumidx_ext. intros idx. unfold eval.
+  pose proof (wfpre_hd1 X e suf HX) as H1. pose proof (wfpre_hd1 Y r suf HY) as H2.
   destruct (X ++ e :: suf) as [|a A] eqn:EA; [destruct X; discriminate|].
   destruct (Y ++ r :: suf) as [|b B] eqn:EB; [destruct Y; discriminate|].
   cbn [hd1] in H1, H2. rewrite H1, H2, !(sumn_1 Kth). reflexivity.
